@@ -64,6 +64,10 @@ def gen_case(seed: int, prop: str, tier: str) -> dict:
     # a quarter of the handle-based workloads hand the library a real io.BytesIO instead of a simulated handle: code that
     # special-cases in-memory buffers (getbuffer(), in-place transforms) must not alter the caller's bytes either
     case["bytesio"] = kind in ("disk", "envelope", "hyperv", "vmtar", "fixture") and rng.random() < 0.3
+    # what the caller's handles say about themselves: a handle opened read-write ("r+b", evidence on a writable mount) must be
+    # treated exactly like a read-only one - nothing may be written through it, and its mode is not a licence to open the
+    # path again for writing
+    case["handle_mode"] = rng.choice(["rb", "rb", "r+b", "a+b"])
     nf = rng.choice([0, 0, 1, 1, 2, 3])
     for _ in range(nf):
         f = rng.choice(["eio", "eio", "eio", "enoent", "eacces", "trunc", "flip", "flip"])
@@ -177,6 +181,14 @@ def run_case(case: dict) -> RunResult:
     book = _BioBook()
     H = (lambda p: book.make(world, p)) if case.get("bytesio") else (lambda p: world.handle(p))
     d = world.root + "/ev"
+    if case.get("handle_mode", "rb") != "rb":
+        real_on = world.on_handle
+
+        def on_handle(h, spath, _m=case["handle_mode"]):
+            real_on(h, spath)
+            h.mode = _m
+
+        world.on_handle = on_handle
     with world.fs:
         # ---- build the world (harness side, not monitored) ------------------------------------------
         work = []
@@ -452,6 +464,7 @@ def run_case(case: dict) -> RunResult:
     res.probes["monitor.kind_" + kind] = 1
     if book.items:
         res.probes["monitor.bytesio_handle"] = 1
+    res.probes["monitor.caller_handle_mode_" + case.get("handle_mode", "rb")] = 1
     if case.get("big_env") is not None:
         res.probes["monitor.envelope_synthetic_4_to_33_MiB" if case["big_env"] < 14 else "monitor.envelope_header_at_block_boundary"] = 1
     if kind == "vmtar" and case.get("arch"):
